@@ -42,4 +42,41 @@ def optBytesOut : Option (List Nat) → String
   | none => "-"
   | some bs => bytesOut bs
 
+/-! ### one-token term notation `name` | `name(t1,…)` | `name()` used by C05/C42/C41 drivers -/
+
+inductive Tree where
+  | node (name : List Char) (kids : List Tree)
+
+def isNameChar (c : Char) : Bool := c ≠ '(' && c ≠ ')' && c ≠ ','
+
+mutual
+  def parseTree : Nat → List Char → Option (Tree × List Char)
+    | 0, _ => none
+    | f + 1, cs =>
+      let name := (spanP isNameChar cs).1
+      match (spanP isNameChar cs).2 with
+      | '(' :: ')' :: r => some (.node name [], r)
+      | '(' :: r =>
+        match parseKids f r with
+        | some (ks, r') => some (.node name ks, r')
+        | none => none
+      | r => some (.node name [], r)
+  def parseKids : Nat → List Char → Option (List Tree × List Char)
+    | 0, _ => none
+    | f + 1, cs =>
+      match parseTree f cs with
+      | none => none
+      | some (t, ',' :: r) =>
+        match parseKids f r with
+        | some (ts, r') => some (t :: ts, r')
+        | none => none
+      | some (t, ')' :: r) => some ([t], r)
+      | some _ => none
+end
+
+def treeOf (s : String) : Option Tree :=
+  match parseTree (s.length + 2) s.toList with
+  | some (t, []) => some t
+  | _ => none
+
 end OpcuaVerif.Text
